@@ -23,7 +23,13 @@ class FrameKind(Case):
     props = ("C10",)
     name = "frame / kind / order / identity obligations on every public method of the core classes"
     func = "gene.interval.AbstractFeatureInterval._merge_qualifiers"
-    static = dict(classes=CORE, kinds=("frame", "kind", "order", "identity"), accepted={})
+    static = dict(classes=CORE, kinds=("frame", "kind", "order", "identity"), accepted={},
+                  # module-level helpers that work on their operands' block lists / qualifier containers
+                  functions=["location.location_impl._union_preserve_overlaps", "util.hashing._order_set",
+                             "util.hashing._order_dict_of_possible_sets", "util.hashing._encode_object_for_digest",
+                             "util.hashing.digest_object", "io.features.merge_qualifiers",
+                             "io.features.extract_feature_name_id"])
+    # (io.features.extract_feature_types is NOT listed: its first parameter is a documented accumulator)
 
 
 class TblOrder(Case):
